@@ -122,5 +122,11 @@ func exploreBounds(repo string) {
 		np += len(m)
 	}
 	fmt.Printf("postconditions proven: %d\n", np)
+	if lc := theLexContract; lc != nil {
+		fmt.Printf("lexer contract: holds=%v constructs=%d\n", lc.holds, lc.sites)
+		for _, p := range lc.problems {
+			fmt.Println("  lexer contract:", p)
+		}
+	}
 	fmt.Printf("functions in scope: %d, sites: %d, proven: %d\n", len(fns), total, proven)
 }
